@@ -38,4 +38,16 @@ Check(c, o) ==
 Unique(ids) == Cardinality({ids[i] : i \in DOMAIN ids}) = Len(ids)
 CheckBurst(e) == (IF ~Unique(e.rids) THEN <<"Req_NotUnique">> ELSE <<>>) \o (IF ~Unique(e.tids) THEN <<"Trace_NotUnique">> ELSE <<>>)
                  \o (IF Len(e.rids) # e.n \/ Len(e.tids) # e.n THEN <<"Burst_MissingIds">> ELSE <<>>)
+
+\* ---- wire level (real sockets, harness/proxysim relay exchanges of spec/Relay.tla with the ID middleware on):
+\* the final response of EVERY proxied exchange -- any status, body framing, interim 1xx responses before it --
+\* carries both headers, and the backend saw the values the client gets.
+\* reqH / respH: sets of [n, v] (lower-case names) the backend received / the client received
+Vals(hs, name) == {h.v : h \in {x \in hs : x.n = name}}
+CheckWire(on, reached, reqH, respH) ==
+  IF ~on \/ ~reached THEN <<>>
+  ELSE (IF Vals(respH, "x-request-id") = {} THEN <<"Req_MissingOnResponse_wire">> ELSE <<>>)
+       \o (IF Vals(respH, "x-trace-id") = {} THEN <<"Trace_MissingOnResponse_wire">> ELSE <<>>)
+       \o (IF Vals(respH, "x-request-id") # {} /\ Vals(respH, "x-request-id") # Vals(reqH, "x-request-id") THEN <<"Req_BackendEqClient_wire">> ELSE <<>>)
+       \o (IF Vals(respH, "x-trace-id") # {} /\ Vals(respH, "x-trace-id") # Vals(reqH, "x-trace-id") THEN <<"Trace_BackendEqClient_wire">> ELSE <<>>)
 =============================================================================
